@@ -13,6 +13,7 @@ import TephraModel.Fam.Nav
 import TephraModel.Fam.Lines
 import TephraModel.Fam.Lex
 import TephraModel.Fam.Run
+import TephraModel.Fam.Oracles
 
 open Tephra
 
@@ -27,7 +28,7 @@ def handle (line : String) : String :=
       else if fam == "lexiter" then Fam.Lex.runIter fields
       else if fam == "lexops" then Fam.Lex.runOps fields
       else if ["peg", "rep", "capture", "errors", "bracket", "list", "recover", "twice", "scoped", "ctxops",
-               "term", "nopanic"].contains fam then Fam.RunF.run fields
+               "term", "nopanic"].contains fam then Fam.Oracles.run fam fields
       else ("?", "FAIL unknown family " ++ fam)
     m ++ "\t" ++ v
   | [] => "?\tFAIL empty line"
